@@ -149,6 +149,12 @@ pub fn own_variants(op: &str, x: &E, y: &E) -> [E; 3] {
     [r1, r2, r3]
 }
 
+pub fn evalc_own(x: &E, v: &BTreeMap<String, bool>) -> [String; 2] {
+    use biodivine_boolean_functions::traits::Evaluate;
+    let fresh = rebuild_expr(x);
+    [format!("{:?}", x.evaluate_checked(v)), format!("{:?}", fresh.evaluate_checked(v))]
+}
+
 pub fn rebuild_expr(e: &E) -> E {
     use biodivine_boolean_functions::expressions::ExpressionNode as N;
     match e.node() {
@@ -214,6 +220,15 @@ fn run_inner(op: &str, a: &[Arg]) -> String {
         "eval" => per_rep!(f(&a[0]), x => enc_bool(x.evaluate_with_default(pv(&a[1]), ob(&a[2])))),
         "eval0" => per_rep!(f(&a[0]), x => enc_bool(x.evaluate(pv(&a[1])))),
         "evalc" => per_rep!(f(&a[0]), x => enc_checked(x.evaluate_checked(pv(&a[1])))),
+        // checked evaluation of an expression as given (its nodes may be shared) and of the same tree rebuilt
+        // node by node (nothing shared): the full results, error lists with their repetitions included
+        "evalc.own" => match f(&a[0]) {
+            Val::E(x) => {
+                let [p, q] = evalc_own(x, pv(&a[1]));
+                format!("(L {} {})", enc_str(&p), enc_str(&q))
+            }
+            _ => panic!("HARNESS: kind"),
+        },
         // the table / diagram form *of an expression* (built by the crate's own conversion), evaluated
         // in the three modes; judged against the expression's meaning
         "eval.of" => match f(&a[0]) {
